@@ -24,10 +24,12 @@ def fresh_classes():
         pass
 
     class TB(TA):
-        pass
+        def __bool__(self):             # an instance that is falsy: identity, not truth value, must decide
+            return False
 
     class TC(Rec, metaclass=sg.TrueSingleton):
-        pass
+        def __len__(self):              # an "empty container" singleton
+            return 0
 
     M1 = sg.semi_singleton_metaclass()
     M2 = sg.semi_singleton_metaclass(parity)
@@ -36,7 +38,8 @@ def fresh_classes():
         pass
 
     class SB(Rec, metaclass=M1):
-        pass
+        def __bool__(self):
+            return False
 
     class SC(SA):
         pass
